@@ -155,6 +155,101 @@ fn safe_points(s: &str) -> Vec<usize> {
     out
 }
 
+/// offsets inside round parentheses where whitespace is insignificant: just after `(`, just before
+/// `)`, and on both sides of a `,` at paren depth >= 1; outside strings, comments, interpolation,
+/// `url(`; inputs with interpolation inside strings are skipped
+fn paren_points(s: &str) -> Vec<usize> {
+    let b = s.as_bytes();
+    let mut out = Vec::new();
+    let mut i = 0;
+    let mut stack: Vec<bool> = Vec::new(); // per open paren: is it one we may touch?
+    let mut interp = 0i32;
+    while i < b.len() {
+        match b[i] {
+            b'"' | b'\'' => {
+                let q = b[i];
+                i += 1;
+                while i < b.len() && b[i] != q {
+                    if b[i] == b'\\' {
+                        i += 1;
+                    } else if b[i] == b'#' && b.get(i + 1) == Some(&b'{') {
+                        return vec![];
+                    }
+                    i += 1;
+                }
+            }
+            b'/' if b.get(i + 1) == Some(&b'*') => {
+                i += 2;
+                while i + 1 < b.len() && !(b[i] == b'*' && b[i + 1] == b'/') {
+                    i += 1;
+                }
+                i += 1;
+            }
+            b'/' if b.get(i + 1) == Some(&b'/') => {
+                while i < b.len() && b[i] != b'\n' {
+                    i += 1;
+                }
+            }
+            b'\\' => i += 1,
+            b'#' if b.get(i + 1) == Some(&b'{') => {
+                interp += 1;
+                i += 1;
+            }
+            b'}' if interp > 0 => interp -= 1,
+            b'(' => {
+                let is_url = i >= 3 && s[..i].to_ascii_lowercase().ends_with("url");
+                let ok = !is_url && interp == 0 && stack.iter().all(|x| *x);
+                stack.push(ok);
+                if ok {
+                    out.push(i + 1);
+                }
+            }
+            b')' => {
+                if let Some(ok) = stack.pop() {
+                    if ok {
+                        out.push(i);
+                    }
+                }
+            }
+            b',' => {
+                if !stack.is_empty() && stack.iter().all(|x| *x) && interp == 0 {
+                    out.push(i);
+                    out.push(i + 1);
+                }
+            }
+            _ => {}
+        }
+        i += 1;
+    }
+    out.sort();
+    out.dedup();
+    // keep the points of statements whose parentheses hold SassScript (argument lists, expressions):
+    // text of selectors, queries, @import modifiers and anything interpolated is kept verbatim by Sass
+    let bounds: Vec<usize> = safe_points(s).into_iter().map(|p| p - 1).collect();
+    out.retain(|p| {
+        let start = bounds.iter().rev().find(|b| **b < *p).map(|b| *b + 1).unwrap_or(0);
+        let term = bounds.iter().find(|b| **b >= *p).copied();
+        let end = term.unwrap_or(s.len());
+        let stmt = s[start..end].trim_start();
+        // special functions keep their argument text verbatim
+        let low = stmt.to_ascii_lowercase();
+        if stmt.contains("#{") || ["url(", "expression(", "progid:", "element(", "-calc("].iter().any(|k| low.contains(k)) {
+            return false;
+        }
+        let opens_block = term.map(|t| s.as_bytes()[t] == b'{').unwrap_or(false);
+        let head = stmt.split(|c: char| c.is_whitespace() || c == '(').next().unwrap_or("");
+        if opens_block {
+            matches!(head, "@mixin" | "@function" | "@include" | "@if" | "@else" | "@each" | "@for" | "@while")
+        } else if head.starts_with('@') {
+            matches!(head, "@include" | "@return" | "@debug" | "@warn" | "@error" | "@if" | "@else" | "@content")
+        } else {
+            // a declaration or a variable assignment
+            stmt.contains(':')
+        }
+    });
+    out
+}
+
 const SASS_ONLY: &[&str] = &[
     "$a: 1;",
     "a { b: $x; }",
@@ -200,8 +295,16 @@ pub fn run(ctx: &Ctx) {
         |i, l| {
             let (scss, sass, _) = &pairs[i as usize];
             l.evals += 2;
-            let a = fresh_thread(|| compile(scss, &Cfg::syn(Syn::Scss)));
-            let b = fresh_thread(|| compile(sass, &Cfg::syn(Syn::Sass)));
+            // one fresh thread per case: thread-local state (the identifier interner) starts empty, and all
+            // spellings of the program meet its identifiers in the same order
+            let wss = ["  ", " ", "      "];
+            let (a, b, cs) = fresh_thread(|| {
+                let a = compile(scss, &Cfg::syn(Syn::Scss));
+                let b = compile(sass, &Cfg::syn(Syn::Sass));
+                let cs: Vec<Outcome> = wss.iter().map(|ws| compile(&sass.replace('\n', &format!("\n{}\n", ws)), &Cfg::syn(Syn::Sass))).collect();
+                (a, b, cs)
+            });
+            l.evals += 3;
             l.outcome(a.digest());
             l.validated += 1;
             let same = match (&a, &b) {
@@ -217,10 +320,24 @@ pub fn run(ctx: &Ctx) {
             };
             if !same {
                 ctx.violation(sub, &format!("syntax:{}", scss[PRELUDE_SCSS.len()..].replace('\n', " ")), "the same program printed as SCSS and as indented syntax compiles differently", json!({"scss": scss, "sass": sass, "scss_result": a.brief(), "sass_result": b.brief()}));
+                return;
+            }
+            // whitespace-only lines between the lines of the indented text are insignificant
+            for (ws, c) in wss.iter().zip(cs.iter()) {
+                let noisy = sass.replace('\n', &format!("\n{}\n", ws));
+                let same = match (&b, c) {
+                    (Outcome::Ok(x), Outcome::Ok(y)) => x == y,
+                    (Outcome::Err(x), Outcome::Err(y)) => x.message == y.message,
+                    _ => false,
+                };
+                if !same {
+                    ctx.violation(sub, &format!("syntax:blank-lines:{:?}:{}", ws, scss[PRELUDE_SCSS.len()..].replace('\n', " ")), "inserting whitespace-only lines between the lines of an indented-syntax program changes the result", json!({"sass": sass, "with_blank_lines": noisy, "result": b.brief(), "with_blank_lines_result": c.brief()}));
+                    return;
+                }
             }
         },
     );
-    ctx.bound(sub, &format!("all statement trees of depth <= 2 ({} children at level 1, 2 at level 2) over a 21-template alphabet (level sub-alphabets 13 / 11 / 3), two independent printers", ctx.pick(2, 3)), true);
+    ctx.bound(sub, &format!("all statement trees of depth <= 2 ({} children at level 1, 2 at level 2) over a 21-template alphabet (level sub-alphabets 13 / 11 / 3), two independent printers; the indented text also with whitespace-only lines (1, 2, 6 spaces) after every line", ctx.pick(2, 3)), true);
     if let Some(p) = pairs.get(pairs.len() / 2) {
         ctx.sample(sub, json!({"scss": p.0, "sass": p.1}));
     }
@@ -444,6 +561,78 @@ pub fn run(ctx: &Ctx) {
     );
     ctx.bound(sub, "every successfully compiling SCSS corpus input (< 600 bytes): each of 5 noise strings inserted after each `{` `;` `}` at nesting-safe positions, one position at a time and at all positions", true);
     ctx.sample(sub, json!({"input": "a { // n\n b: c; }"}));
+
+    // ---- (5b) whitespace and comments inside parentheses ---------------------------------------------
+    let sub = "paren-noise";
+    let pnoise = [" ", "\n  ", "/**/", " /* c */ "];
+    let mut extra: Vec<String> = vec![
+        "@function sum($a...) { @return length($a); } $l: 1 2 3; a { b: sum($l...); }".into(),
+        "@function sum($a...) { @return length($a); } $l: 1 2 3; $m: (k: 1); a { b: sum($l..., $m...); }".into(),
+        "@mixin m($a...) { b: $a; } $l: 1 2 3; a { @include m($l...); }".into(),
+        "@mixin m($a, $b: 2, $r...) { b: $a $b $r; } a { @include m(1, $b: 3); @include m(1, 2, 3, 4); }".into(),
+        "@function f($a, $b: 2) { @return $a + $b; } a { b: f(1); c: f($a: 1, $b: 5); d: f(1, 2); }".into(),
+        "a { b: if(true, 1, 2); c: rgba(1, 2, 3, 0.5); d: (1, 2, 3); e: (k: v, l: w); f: nth((1, 2), 1); }".into(),
+        "@mixin c { @content(1, 2); } a { @include c using ($x, $y) { b: $x $y; } }".into(),
+        "a:not(.b, .c) { d: e; } @media (min-width: 1px) and (max-width: 2px) { a { b: c; } } @supports (a: b) { c { d: e; } }".into(),
+    ];
+    let pcases_src: Vec<String> = corp
+        .iter()
+        .filter(|c| c.syntax == Syn::Scss && !c.is_error && !c.compressed && c.input.len() < 400 && c.input.contains('(') && !c.input.contains("unique-id") && !c.input.contains("random(") && !c.input.contains("--"))
+        .map(|c| c.input.clone())
+        .collect();
+    extra.extend(pcases_src);
+    let pcases: Vec<(usize, usize)> = extra
+        .iter()
+        .enumerate()
+        .flat_map(|(ci, src)| {
+            let n = paren_points(src).len();
+            (0..n).map(move |k| (ci, k)).chain(if n > 0 { Some((ci, usize::MAX)) } else { None })
+        })
+        .collect();
+    let pn = pnoise.len() as u64;
+    par(
+        ctx,
+        sub,
+        pcases.len() as u64 * pn,
+        |i| json!({"input": extra[pcases[(i / pn) as usize].0], "point": pcases[(i / pn) as usize].1 as i64, "noise": pnoise[(i % pn) as usize]}),
+        |i, l| {
+            let (ci, k) = pcases[(i / pn) as usize];
+            let nz = pnoise[(i % pn) as usize];
+            let src = &extra[ci];
+            let pts = paren_points(src);
+            let mut rewritten = String::new();
+            if k == usize::MAX {
+                let mut last = 0;
+                for p in &pts {
+                    rewritten.push_str(&src[last..*p]);
+                    rewritten.push_str(nz);
+                    last = *p;
+                }
+                rewritten.push_str(&src[last..]);
+            } else {
+                let p = pts[k];
+                rewritten.push_str(&src[..p]);
+                rewritten.push_str(nz);
+                rewritten.push_str(&src[p..]);
+            }
+            l.evals += 2;
+            let base = compile(src, &Cfg::scss());
+            let got = compile(&rewritten, &Cfg::scss());
+            l.validated += 1;
+            l.outcome(got.digest());
+            let Outcome::Ok(b) = &base else { return };
+            l.nontrivial += 1;
+            let same = match &got {
+                Outcome::Ok(g) => g == b || crate::models::canon::canon(g, false).ok() == crate::models::canon::canon(b, false).ok(),
+                _ => false,
+            };
+            if !same {
+                ctx.violation(sub, &format!("paren-noise:{}:{}:{:?}", crate::models::css::squash_ws(src), if k == usize::MAX { "all".to_string() } else { k.to_string() }, nz), "inserting whitespace / a comment next to a parenthesis or a comma inside parentheses changes the result", json!({"input": src, "rewritten": rewritten, "original_result": base.brief(), "rewritten_result": got.brief()}));
+            }
+        },
+    );
+    ctx.bound(sub, "8 call / include / selector / query templates with rest, keyword and default arguments plus every compiling SCSS corpus input (< 400 bytes) containing parentheses: each of 4 noise strings (space, newline, empty comment, comment) inserted after each `(`, before each `)` and on both sides of each `,` inside parentheses, one position at a time and at all positions", true);
+    ctx.sample(sub, json!({"input": "a { b: sum($l... ); }"}));
 
     // ---- (6) `_` <-> `-` in variable, function and mixin names -------------------------------------
     let sub = "underscore-hyphen";
